@@ -815,7 +815,8 @@ fn base_shape(v6: bool, primary: Alg, sub: Option<Sub>) -> Shape {
 
 pub fn check(ctx: &Ctx) {
     let quick = ctx.tier == Tier::Quick;
-    let sh = shapes(quick);
+    // the full shape product takes seconds: no thinning in the quick tier any more
+    let sh = shapes(false);
     ctx.run_space(
         "configuration_matrix",
         true,
@@ -860,7 +861,7 @@ pub fn check(ctx: &Ctx) {
             mode: 0,
         };
         let draws = count_draws(&probe);
-        for d in 0..draws.min(if quick { 24 } else { 64 }) {
+        for d in 0..draws.min(if quick { 64 } else { 160 }) {
             for mode in 0..5u8 {
                 forced.push(Case {
                     shape: b.clone(),
@@ -880,7 +881,7 @@ pub fn check(ctx: &Ctx) {
     );
 
     // seed sweep with measured class coverage
-    let nseeds = if quick { 150u64 } else { 3000 };
+    let nseeds = if quick { 800u64 } else { 8000 };
     let mut sweep = Vec::new();
     for b in bases.iter().filter(|b| {
         matches!(
@@ -909,7 +910,7 @@ pub fn check(ctx: &Ctx) {
 
     // RSA (and DSA in the thorough tier): default stream only (forcing prime candidates does not terminate)
     let mut slow = Vec::new();
-    for seed in 0..if quick { 3u64 } else { 24 } {
+    for seed in 0..if quick { 6u64 } else { 24 } {
         for v6 in [false, true] {
             slow.push(Case {
                 shape: Shape {
